@@ -47,6 +47,39 @@ class Other:
         return hash(self.src)
 
 
+FLOATX = {"float('inf')": 0, "float('-inf')": 1, "float('nan')": 2}
+
+
+class FloatX(float):
+    """float('inf') / float('-inf') / float('nan') as written in the source: a float (so a primitive argument /
+    option value) that denotes no rational; Model/Schema.v VFloatX"""
+
+    def __new__(cls, src):
+        assert src in FLOATX, src
+        o = float.__new__(cls, eval(src))  # pylint: disable=eval-used
+        o.src = src
+        o.which = FLOATX[src]
+        return o
+
+    def __repr__(self):
+        return self.src
+
+    def __deepcopy__(self, memo):
+        return FloatX(self.src)
+
+    def __copy__(self):
+        return FloatX(self.src)
+
+    def __reduce__(self):
+        return (FloatX, (self.src,))
+
+    def __eq__(self, o):
+        return isinstance(o, FloatX) and o.src == self.src
+
+    def __hash__(self):
+        return hash(self.src)
+
+
 class Inst:
     """ExperimentInstance(...) as written in the source: only the given fields"""
 
@@ -92,8 +125,9 @@ def cval(v):
         return "(VStr %s)" % cstr(v)
     if isinstance(v, int):
         return "(VInt %s)" % cz(v)
+    if isinstance(v, float) and not math.isfinite(v):
+        return "(VFloatX %d)" % (0 if v > 0 else 1 if v < 0 else 2)
     if isinstance(v, float):
-        assert math.isfinite(v)
         n, d = v.as_integer_ratio()
         return "(VFloat %s %d%%positive)" % (cz(n), d)
     if v is None:
@@ -121,6 +155,8 @@ def ser_value(v):
         return [0] + ser_str(v)
     if isinstance(v, int):
         return [2] + ser_z(v)
+    if isinstance(v, float) and not math.isfinite(v):
+        return [9, 0 if v > 0 else 1 if v < 0 else 2]
     if isinstance(v, float):
         n, d = v.as_integer_ratio()
         return [3] + ser_z(n) + [d]
@@ -181,6 +217,7 @@ Fixpoint ser_value (v : value) : list N :=
   | VList l => 5 :: N.of_nat (length l) :: flat_map ser_value l
   | VDict kv => 6 :: N.of_nat (length kv) :: flat_map (fun p => match p with (a, b) => ser_value a ++ ser_value b end) kv
   | VOther _ t => [7; t]
+  | VFloatX k => [9; k]
   end.
 Definition ser_err (e : err) : list N :=
   match e with
